@@ -87,6 +87,20 @@ Theorem C08g_code_kind : forall f x s r, GCore.grewrite (S f) x s = Some r ->
 Proof. exact GCoreSpec.grewrite_kind. Qed.
 Print Assumptions C08g_code_kind.
 
+(* the text of gomini/unify.go: rewrite as translated from it on every run (gen/GominiGen.v) is the transcription, so on
+   the generated code too nothing reachable in the answer is a bound variable, and it never panics *)
+Require GMK.GoLite GMK.GoLiteG GMK.gen.GominiGen GMK.GominiGenSpec.
+Theorem C08g_gen_is_transcription : forall f x s,
+  GominiGen.gm_rewrite f x s = GominiGenSpec.of_optg (GCore.grewrite f x s).
+Proof. exact GominiGenSpec.gm_rewrite_spec. Qed.
+Print Assumptions C08g_gen_is_transcription.
+
+Theorem C08g_gen_resolved : forall f x s r,
+  Reflect.wfb x = true -> GCoreSpec.gwf_sub s -> GominiGen.gm_rewrite f x s = GoLite.Ret r ->
+  forall y, GCoreSpec.subval r y -> forall i, GCore.cast_var y = Some i -> GCore.gassv i s = None.
+Proof. exact GominiGenSpec.gm_rewrite_resolved. Qed.
+Print Assumptions C08g_gen_resolved.
+
 (* non-vacuity: a bound variable inside a Go MAP value and one inside a slice are both replaced, the unbound one stays *)
 Example C08g_code_nonvacuous :
   let str := fun z => Reflect.GPtr (Reflect.GScalar 1 z) in
